@@ -189,7 +189,44 @@ func raceAgent(c *Ctx) {
 		}
 		_ = a.Close()
 	}
-	racePassFinish(c, total, "Agent: 2..5 goroutines x 2 operations over 3 shared ids, re-entrant handlers")
+	// many transactions at one Close / one Collect (what an agent would be tempted to deliver in parallel): every
+	// one of them gets exactly one terminal event, and the handler is never entered by two goroutines of one call
+	for _, n := range []int{63, 64, 65, 200, 1100} {
+		for mode := 0; mode < 2; mode++ {
+			var mu sync.Mutex
+			seen := map[[12]byte]int{}
+			a := stun.NewAgent(func(e stun.Event) {
+				mu.Lock()
+				seen[e.TransactionID]++
+				mu.Unlock()
+			})
+			for i := 0; i < n; i++ {
+				_ = a.Start([12]byte{byte(i), byte(i >> 8), 0x33}, time.Unix(1, 0))
+			}
+			if mode == 0 {
+				_ = a.Close()
+			} else {
+				_ = a.Collect(time.Unix(2, 0))
+				_ = a.Close()
+			}
+			total++
+			bad := ""
+			mu.Lock()
+			for i := 0; i < n; i++ {
+				if k := seen[[12]byte{byte(i), byte(i >> 8), 0x33}]; k != 1 {
+					bad = fmt.Sprintf("%d transactions, %s: transaction %d got %d terminal events (want 1; %d ids saw an event)", n, []string{"Close", "Collect then Close"}[mode], i, k, len(seen))
+					break
+				}
+			}
+			mu.Unlock()
+			if bad != "" {
+				c.Res.Violations = append(c.Res.Violations, raceViolation("many-transactions/terminal-events", bad))
+				racePassFinish(c, total, "")
+				return
+			}
+		}
+	}
+	racePassFinish(c, total, "Agent: 2..5 goroutines x 2 operations over 3 shared ids, re-entrant handlers; Close / Collect over 63..1100 transactions")
 }
 
 // ---- C15 / C10: Client ----
